@@ -493,12 +493,7 @@ def main(tier):
         nct += 1
         key = "ctor(%s)" % ", ".join(p["t"] for p in fn["params"])[:80]
         ck.instance("R-C18-2", key)
-        seq = []
-        for s in fn["body"]["s"]:
-            for c in structq.calls_in(s):
-                q = structq.callee_of(c)
-                if q in COORD_WRITERS or q in ORDER:
-                    seq.append(q)
+        seq = structq.named_call_sequence(prog, fn, set(COORD_WRITERS) | set(ORDER), "PolarGrid::")
         tail = [q for q in seq if q in ORDER]
         if tail != ORDER or any(q not in ORDER for q in seq[seq.index(ORDER[0]):]):
             ck.violation("R-C18-2", "ctor:order", ir.locstr(fn), "%s: call order %s" % (key, [q.split("::")[1] for q in seq]))
